@@ -397,9 +397,11 @@ class Enc:
         names = [col[0] for col in self.tabtypes[t]]
         idx = []
         for c in cols:
-            if c not in names:
+            # a second occurrence of a table in one query (self-join) prints its columns as "$t.c(k)": same stored column
+            base = re.sub(r'\(\d+\)$', '', c.strip('"')) if isinstance(c, str) else c
+            if base not in names:
                 raise NotEncodable('scan column ' + show(c))
-            idx.append(names.index(c))
+            idx.append(names.index(base))
         types = [self.tabtypes[t][i][1] for i in idx]
         r = Rel(list(cols), [(pr, [vals[i] for i in idx]) for pr, vals in self.tabs[t]], types)
         pk = [i for i, col in enumerate(self.tabtypes[t]) if len(col) > 3 and col[3]]
